@@ -548,6 +548,22 @@ def _make_profile(width, t_dep=False):
     return profile
 
 
+def _g_sin(x, y, z):
+    return 1.5 + np.sin(x) + 0.0 * y
+
+
+def _g_cos(x, y, z):
+    return 1.5 + np.cos(x) + 0.0 * y
+
+
+def _g_max(x, y, z):
+    return 2.0 + np.maximum(x, y)
+
+
+def _g_min(x, y, z):
+    return 2.0 + np.minimum(x, y)
+
+
 def _closure_case(spec):
     """Composites over closures / lambdas: serialisable (pickle, cloudpickle, deepcopy) and usable by the solver like
     composites over importable functions."""
@@ -564,14 +580,21 @@ def _closure_case(spec):
         "closure_b": lambda: tdgl.Parameter(_make_profile(w2)),  # same factory, same bytecode, another captured value
         "closure": lambda: tdgl.Parameter(_make_profile(w1)),
         "closure_t": lambda: tdgl.Parameter(_make_profile(w2, True), time_dependent=True),
+        "closure_tb": lambda: tdgl.Parameter(_make_profile(w1, True), time_dependent=True),  # same factory as closure_t, another captured value
+        "g_sin": lambda: tdgl.Parameter(_g_sin), "g_cos": lambda: tdgl.Parameter(_g_cos),  # differ only in the NAME of the numpy function they call
+        "g_max": lambda: tdgl.Parameter(_g_max), "g_min": lambda: tdgl.Parameter(_g_min),
         "lambda": lambda: tdgl.Parameter(lambda x, y, z: 2.0 + 0.0 * x),
         "module": lambda: tdgl.Parameter(f3, sigma=2.0),
     }
-    raw = {"closure_b": lambda t: _make_profile(w2)(x, y, z), "closure": lambda t: _make_profile(w1)(x, y, z), "closure_t": lambda t: _make_profile(w2, True)(x, y, z, t=t),
+    raw = {"closure_tb": lambda t: _make_profile(w1, True)(x, y, z, t=t), "g_sin": lambda t: _g_sin(x, y, z), "g_cos": lambda t: _g_cos(x, y, z),
+           "g_max": lambda t: _g_max(x, y, z), "g_min": lambda t: _g_min(x, y, z),
+           "closure_b": lambda t: _make_profile(w2)(x, y, z), "closure": lambda t: _make_profile(w1)(x, y, z), "closure_t": lambda t: _make_profile(w2, True)(x, y, z, t=t),
            "lambda": lambda t: 2.0 + 0.0 * x, "module": lambda t: f3(x, y, z, sigma=2.0)}
     combos = [("closure", "*", 2.5), (3, "+", "closure"), ("closure", "-", "module"), ("closure_t", "*", "closure"), ("lambda", "/", "closure"),
               ("closure", "**", 2), (("closure", "+", "lambda"), "*", "closure_t"), (2.0, "*", ("closure_t", "-", 1)),
-              ("closure", "+", "closure_b"), ("closure", "-", "closure_b"), ((2, "*", "closure"), "+", (2, "*", "closure_b")), ("closure_b", "/", "closure")]
+              ("closure", "+", "closure_b"), ("closure", "-", "closure_b"), ((2, "*", "closure"), "+", (2, "*", "closure_b")), ("closure_b", "/", "closure"),
+              ("closure_t", "+", "closure_tb"), ((2, "*", "closure_t"), "-", (3, "*", "closure_tb")), ("closure_tb", "/", "closure_t"),
+              ("g_sin", "-", "g_cos"), ("g_max", "/", "g_min"), ((2, "*", "g_cos"), "+", "g_sin")]
 
     def build(e):
         if isinstance(e, tuple):
@@ -586,7 +609,7 @@ def _closure_case(spec):
 
     for e in combos:
         comp = build(e)
-        tdep = "closure_t" in repr(e)
+        tdep = "closure_t" in repr(e)  # (closure_tb included)
         kw = {"t": 0.37} if tdep else {}
         want = value(e, 0.37)
         C["value_checks"] += 1
@@ -622,6 +645,41 @@ def _closure_case(spec):
                 V.append({"kind": "value_changed_by_serialising", "mechanism": "pickle_changes_value", "detail": {"expr": repr(e)}})
         except Exception as exc:  # noqa: BLE001
             V.append({"kind": "original_unusable_after_serialising", "mechanism": "pickle_raised", "detail": {"expr": repr(e), "error": repr(exc)[:200]}})
+    # leaves that evaluate differently are different leaves (and so are the expressions over them), however alike their code looks
+    # (two closures of one factory that captured different values DO compare equal in this library - leaf equality is bytecode + kwargs;
+    # that is not judged here, see DESIGN 6b)
+    for a_, b_ in (("g_sin", "g_cos"), ("g_max", "g_min"), ("g_sin", "g_max"), ("closure", "g_cos")):
+        C["equality_checks"] = C.get("equality_checks", 0) + 1
+        la_, lb_ = leaves[a_](), leaves[b_]()
+        if la_ == lb_ or lb_ == la_ or (2.0 * la_) == (2.0 * lb_) or (la_ + leaves["module"]()) == (lb_ + leaves["module"]()):
+            V.append({"kind": "different_leaves_compare_equal", "mechanism": "equality_not_structural", "detail": {"leaves": [a_, b_]}})
+        cl_ = pickle.loads(cloudpickle.dumps(2.0 * la_))
+        if cl_ == (2.0 * lb_):
+            V.append({"kind": "different_leaves_compare_equal", "mechanism": "equality_not_structural", "detail": {"leaves": [a_, b_], "after": "cloudpickle"}})
+    # a time-dependent leaf the user keeps OUT of the evaluation cache (use_cache=False) whose function reads data that is refreshed
+    # between evaluations: the composite is the combination of what its operands evaluate to NOW
+    cell_ = {"v": 1.0}
+
+    def _reads_cell(x, y, z, *, t):
+        return cell_["v"] * (1.0 + 0.1 * np.asarray(x)) * (1.0 + t)
+
+    for expr_ in (lambda L: 2.0 * L, lambda L: L - 0.5, lambda L: tdgl.Parameter(f3, sigma=2.0) * L, lambda L: (L + 1) / (L + 2)):
+        cell_["v"] = 1.0
+        leaf_ = tdgl.Parameter(_reads_cell, time_dependent=True, use_cache=False)
+        comp_ = expr_(leaf_)
+        first_ = np.array(comp_(x, y, z, t=0.25), copy=True)
+        cell_["v"] = 3.0
+        C["uncached_leaf_checks"] = C.get("uncached_leaf_checks", 0) + 1
+        now_leaf = np.asarray(leaf_(x, y, z, t=0.25))
+        if not np.allclose(now_leaf, _reads_cell(x, y, z, t=0.25), rtol=1e-13):
+            V.append({"kind": "uncached_leaf_returns_stale_value", "mechanism": "composite_value_wrong", "detail": {"what": "leaf created with use_cache=False, evaluated directly after becoming an operand"}})
+        stand_in = tdgl.Parameter(_reads_cell, time_dependent=True, use_cache=False)
+        want_ = np.asarray(expr_(stand_in)(x, y, z, t=0.25))
+        got_ = np.asarray(comp_(x, y, z, t=0.25))
+        if not np.allclose(got_, want_, rtol=1e-13) or np.allclose(got_, first_, rtol=1e-9):
+            V.append({"kind": "composite_ne_combination_of_its_operands_now", "mechanism": "composite_value_wrong",
+                      "detail": {"what": "operand created with use_cache=False; its function's data changed between two evaluations at the same arguments",
+                                 "max_abs_diff": float(np.max(np.abs(got_ - want_)))}})
     if spec.get("solve"):
         # handed to the solver with an output file: the Solution (with the composite inside) is written at the end
         import shutil
